@@ -2,6 +2,7 @@ import FiberModel.C16.SimStorage
 import FiberModel.C16.SimMw
 import FiberModel.C16.SimSS
 import FiberModel.C16.SpecLemmas
+import FiberModel.C16.Front
 /-
 C16 — the refinement: the invariant between model and specification states, one request, and whole
 histories by induction.
@@ -40,6 +41,153 @@ theorem inv_adv (cfg : Cfg) (gen : Nat → Bytes) (st : St) (s : SpecSt) (d : Na
   · exact ⟨sessOK_mono _ _ _ _ _ _ _ _ h3.1 (Nat.le_refl _) (Nat.le_add_right _ _), h3.2⟩
   · exact ⟨sessOK_mono _ _ _ _ _ _ _ _ h3.1 (Nat.le_refl _) (Nat.le_add_right _ _), h3.2⟩
 
+/-- One request that `Next` does not exempt: from related states, the model's answer passes every
+    clause of the core specification step and the successor states are related again. -/
+theorem handleCore_refines (raw : List Bytes) (cfg : Cfg)
+    (hbuild : buildLoop raw [] [] = some (cfg.origins, cfg.subs))
+    (gen sgen : Nat → Bytes) (hgen : ∀ n, gen n ≠ [])
+    (hinj : cfg.backend ≠ .storage → Function.Injective gen)
+    (hsgen : ∀ n, sgen n ≠ []) (hpos : 0 < cfg.idle)
+    (st : St) (s : SpecSt) (q : Req) (hinv : Inv cfg gen st s) :
+    ∃ s', specReqCore (specConfig cfg.backend cfg.ext cfg.single cfg.idle raw) s q
+        (obsOf cfg (handleCore cfg gen sgen st q).1 (handleCore cfg gen sgen st q).2) = .ok s' ∧
+      Inv cfg gen (handleCore cfg gen sgen st q).1 s' := by
+  obtain ⟨h1, h2, h3⟩ := hinv
+  rcases hh : handleCore cfg gen sgen st q with ⟨st', r⟩
+  have key : cfg.backend = .storage ∨ cfg.backend = .sessStore ∨ cfg.backend = .sessMw := by
+    cases cfg.backend <;> simp
+  rcases key with hb | hb | hb
+  · simp only [hb] at h3
+    obtain ⟨s', hs, g1, g2, g3, g4⟩ := sim_storage raw cfg hbuild gen sgen hgen hpos hb st s q h1 h2 h3.1 h3.2 st' r hh
+    exact ⟨s', hs, g1, g2, by simp only [hb]; exact ⟨g3, g4⟩⟩
+  · simp only [hb] at h3
+    obtain ⟨s', hs, g1, g2, g3, g4⟩ := sim_ss raw cfg hbuild gen sgen hgen (hinj (by rw [hb]; decide)) hsgen hpos hb st s q h1 h2 h3.1 h3.2 st' r hh
+    exact ⟨s', hs, g1, g2, by simp only [hb]; exact ⟨g3, g4⟩⟩
+  · simp only [hb] at h3
+    obtain ⟨s', hs, g1, g2, g3, g4⟩ := sim_mw raw cfg hbuild gen sgen hgen (hinj (by rw [hb]; decide)) hsgen hpos hb st s q h1 h2 h3.1 h3.2 st' r hh
+    exact ⟨s', hs, g1, g2, by simp only [hb]; exact ⟨g3, g4⟩⟩
+
+/-! ### `Next`, and the cookie attributes -/
+
+theorem skippedS_eq (cfg : Cfg) (raw : List Bytes) (q : Req) :
+    skippedS (specConfig cfg.backend cfg.ext cfg.single cfg.idle raw cfg.next cfg.cookie cfg.eh) q = skipped cfg q := rfl
+
+theorem handle_of_not_skipped (cfg : Cfg) (gen sgen : Nat → Bytes) (st : St) (q : Req) (h : skipped cfg q = false) :
+    handle cfg gen sgen st q = handleCore cfg gen sgen st q := by
+  unfold handle; simp [h]
+
+theorem handle_of_skipped (cfg : Cfg) (gen sgen : Nat → Bytes) (st : St) (q : Req) (h : skipped cfg q = true) :
+    handle cfg gen sgen st q = handleSkip cfg sgen st q := by
+  unfold handle; simp [h]
+
+/-- the model's cookie attributes are the configured ones, as the specification reads them -/
+theorem attrsOf_ok (cc : CookieCfg) (idle now : Nat) (t : Bytes) (hpos : 0 < idle) :
+    attrsOK cc idle now t (attrsOf cc idle now (t = [])) = true := by
+  have hp1 : ((if cc.path.head? = some 47 then cc.path else 47 :: cc.path) = cc.path ∨
+      (if cc.path.head? = some 47 then cc.path else 47 :: cc.path) = 47 :: cc.path) := by
+    by_cases h : cc.path.head? = some 47 <;> simp [h]
+  have hp2 : (if cc.path.head? = some 47 then cc.path else 47 :: cc.path).head? = some 47 := by
+    by_cases h : cc.path.head? = some 47 <;> simp [h]
+  unfold attrsOK attrsOf sameSiteOf
+  simp only [Bool.and_eq_true, decide_eq_true_eq, Bool.or_eq_true]
+  refine ⟨⟨⟨⟨⟨⟨trivial, hp1⟩, hp2⟩, trivial⟩, trivial⟩, trivial⟩, ?_⟩
+  by_cases hs : cc.sessionOnly = true
+  · simp [hs]
+  · by_cases ht : t = []
+    · simp [hs, ht]; omega
+    · simp [hs, ht]
+
+theorem attrsClause_obsOf (cfg : Cfg) (raw : List Bytes) (st' : St) (r : Resp) (now : Nat) (hnow : st'.now = now)
+    (hpos : 0 < cfg.idle) :
+    attrsClause (specConfig cfg.backend cfg.ext cfg.single cfg.idle raw cfg.next cfg.cookie cfg.eh) now (obsOf cfg st' r) = true := by
+  unfold attrsClause obsOf respAttrs
+  simp only
+  cases r.ck with
+  | none => rfl
+  | some t =>
+    simp only [Option.map_some, specConfig]
+    rw [hnow]
+    exact attrsOf_ok cfg.cookie cfg.idle now t hpos
+
+/-- the session middleware alone (load, save): the session table keeps its tokens -/
+theorem skip_mw (gen sgen : Nat → Bytes) (hsgen : ∀ n, sgen n ≠ []) (idle : Nat) (st : St) (q : Req)
+    (live : List (Bytes × LiveTok)) (hS : SessOK gen idle st.ntok st.now st.sess live) (hN : keysNodup st.sess) :
+    let c := mwSave (mwLoad sgen q { st := st })
+    c.gens = [] ∧ c.st.now = st.now ∧ c.st.ntok = st.ntok ∧
+      SessOK gen idle c.st.ntok c.st.now c.st.sess live ∧ keysNodup c.st.sess := by
+  intro c
+  obtain ⟨W, slot0, hmw0, hW, hsess0, hnow0, hntok0, hgens0, _, _, _, hcase0⟩ := mwLoad_cases sgen q st hsgen
+  show (mwSave (mwLoad sgen q { st := st })).gens = [] ∧ (mwSave (mwLoad sgen q { st := st })).st.now = st.now ∧
+    (mwSave (mwLoad sgen q { st := st })).st.ntok = st.ntok ∧
+    SessOK gen idle (mwSave (mwLoad sgen q { st := st })).st.ntok (mwSave (mwLoad sgen q { st := st })).st.now
+      (mwSave (mwLoad sgen q { st := st })).st.sess live ∧ keysNodup (mwSave (mwLoad sgen q { st := st })).st.sess
+  generalize mwLoad sgen q { st := st } = c0 at *
+  have e : mwSave c0 = { c0 with st := { c0.st with sess := put c0.st.sess W slot0 }, sc := some W } := by
+    unfold mwSave; rw [hmw0]
+  rw [e]
+  refine ⟨hgens0, hnow0, hntok0, ?_, ?_⟩
+  · show SessOK gen idle c0.st.ntok c0.st.now (put c0.st.sess W slot0) live
+    rw [hntok0, hnow0, hsess0]
+    apply sessOK_sub gen idle st.ntok st.ntok st.now st.sess _ live hS (Nat.le_refl _)
+    intro id k d hk
+    rw [lookup_put] at hk
+    by_cases hid : id = W
+    · simp only [hid, if_true, Option.some.injEq] at hk
+      rcases hcase0 with ⟨_, hl⟩ | ⟨h0, _⟩
+      · rw [hid, hl, hk]
+      · rw [h0] at hk; cases hk
+    · simp only [hid, if_false] at hk; exact hk
+  · show keysNodup (put c0.st.sess W slot0)
+    rw [hsess0]; exact keysNodup_put _ _ _ hN
+
+/-- **One request that `Next` exempts**: the handler is reached, nothing is issued or set, the store
+    still holds nothing it should not, and the states stay related. -/
+theorem handleSkip_refines (cfg : Cfg) (gen sgen : Nat → Bytes) (hsgen : ∀ n, sgen n ≠ [])
+    (st : St) (s : SpecSt) (q : Req) (hinv : Inv cfg gen st s) :
+    specSkip s (obsOf cfg (handleSkip cfg sgen st q).1 (handleSkip cfg sgen st q).2) = .ok s ∧
+      Inv cfg gen (handleSkip cfg sgen st q).1 s := by
+  obtain ⟨h1, h2, h3⟩ := hinv
+  have key : cfg.backend = .storage ∨ cfg.backend = .sessStore ∨ cfg.backend = .sessMw := by
+    cases cfg.backend <;> simp
+  -- the three facts the clause needs, and the invariant, per back-end
+  suffices H : (handleSkip cfg sgen st q).2.pass = true ∧ (handleSkip cfg sgen st q).2.ck = none ∧
+      (handleSkip cfg sgen st q).2.gens = [] ∧
+      probeSound s (obsOf cfg (handleSkip cfg sgen st q).1 (handleSkip cfg sgen st q).2) = true ∧
+      Inv cfg gen (handleSkip cfg sgen st q).1 s by
+    obtain ⟨hp, hck, hg, hpr, hi⟩ := H
+    refine ⟨?_, hi⟩
+    unfold specSkip
+    have e1 : (obsOf cfg (handleSkip cfg sgen st q).1 (handleSkip cfg sgen st q).2).pass = true := hp
+    have e2 : (obsOf cfg (handleSkip cfg sgen st q).1 (handleSkip cfg sgen st q).2).ck = none := hck
+    have e3 : (obsOf cfg (handleSkip cfg sgen st q).1 (handleSkip cfg sgen st q).2).gens = [] := hg
+    simp [e1, e2, e3, hpr]
+  rcases key with hb | hb | hb
+  · have e : handleSkip cfg sgen st q = (st, { pass := true, status := 200, ck := none, early := false }) := by
+      unfold handleSkip; simp [hb]
+    rw [e]
+    simp only [hb] at h3
+    exact ⟨rfl, rfl, rfl, probeSound_storage cfg gen st s _ hb h2 h3.1 h3.2, ⟨h1, h2, by simp only [hb]; exact h3⟩⟩
+  · have e : handleSkip cfg sgen st q = (st, { pass := true, status := 200, ck := none, early := false }) := by
+      unfold handleSkip; simp [hb]
+    rw [e]
+    simp only [hb] at h3
+    exact ⟨rfl, rfl, rfl, probeSound_sess cfg gen st s _ (by rw [hb]; decide) h2 h3.1 h3.2,
+      ⟨h1, h2, by simp only [hb]; exact h3⟩⟩
+  · simp only [hb] at h3
+    obtain ⟨g1, g2, g3, g4, g5⟩ := skip_mw gen sgen hsgen cfg.idle st q s.live h3.1 h3.2
+    have e : handleSkip cfg sgen st q =
+        ((mwSave (mwLoad sgen q { st := st })).st,
+         { pass := true, status := 200, ck := none, early := false,
+           sc := (mwSave (mwLoad sgen q { st := st })).sc, gens := (mwSave (mwLoad sgen q { st := st })).gens,
+           sgens := (mwSave (mwLoad sgen q { st := st })).sgens, fg := (mwSave (mwLoad sgen q { st := st })).fg,
+           fs := (mwSave (mwLoad sgen q { st := st })).fs, fd := (mwSave (mwLoad sgen q { st := st })).fd }) := by
+      unfold handleSkip; simp [hb]
+    rw [e]
+    have hI : IssuedOK gen (mwSave (mwLoad sgen q { st := st })).st.ntok s.issued := by rw [g3]; exact h2
+    refine ⟨rfl, rfl, g1, probeSound_sess cfg gen _ s _ (by rw [hb]; decide) hI g4 g5, ⟨?_, hI, ?_⟩⟩
+    · rw [g2]; exact h1
+    · simp only [hb]; exact ⟨g4, g5⟩
+
 /-- **One request.** From related states, the model's answer passes every clause of the
     specification step and the successor states are related again. -/
 theorem handle_refines (raw : List Bytes) (cfg : Cfg)
@@ -47,27 +195,36 @@ theorem handle_refines (raw : List Bytes) (cfg : Cfg)
     (gen sgen : Nat → Bytes) (hgen : ∀ n, gen n ≠ [])
     (hinj : cfg.backend ≠ .storage → Function.Injective gen)
     (hsgen : ∀ n, sgen n ≠ []) (hpos : 0 < cfg.idle)
-    (st : St) (s : SpecSt) (q : Req) (hwo : q.ourl.wf) (hwr : q.rurl.wf) (hinv : Inv cfg gen st s) :
-    ∃ s', specReq (specConfig cfg.backend cfg.ext cfg.single cfg.idle raw) s q
+    (st : St) (s : SpecSt) (q : Req) (hinv : Inv cfg gen st s) :
+    ∃ s', specReq (specConfig cfg.backend cfg.ext cfg.single cfg.idle raw cfg.next cfg.cookie cfg.eh) s q
         (obsOf cfg (handle cfg gen sgen st q).1 (handle cfg gen sgen st q).2) = .ok s' ∧
       Inv cfg gen (handle cfg gen sgen st q).1 s' := by
-  obtain ⟨h1, h2, h3⟩ := hinv
-  rcases hh : handle cfg gen sgen st q with ⟨st', r⟩
-  have key : cfg.backend = .storage ∨ cfg.backend = .sessStore ∨ cfg.backend = .sessMw := by
-    cases cfg.backend <;> simp
-  rcases key with hb | hb | hb
-  · simp only [hb] at h3
-    obtain ⟨s', hs, g1, g2, g3, g4⟩ := sim_storage raw cfg hbuild gen sgen hgen hpos hb st s q hwo hwr h1 h2 h3.1 h3.2 st' r hh
-    exact ⟨s', hs, g1, g2, by simp only [hb]; exact ⟨g3, g4⟩⟩
-  · simp only [hb] at h3
-    obtain ⟨s', hs, g1, g2, g3, g4⟩ := sim_ss raw cfg hbuild gen sgen hgen (hinj (by rw [hb]; decide)) hsgen hpos hb st s q hwo hwr h1 h2 h3.1 h3.2 st' r hh
-    exact ⟨s', hs, g1, g2, by simp only [hb]; exact ⟨g3, g4⟩⟩
-  · simp only [hb] at h3
-    obtain ⟨s', hs, g1, g2, g3, g4⟩ := sim_mw raw cfg hbuild gen sgen hgen (hinj (by rw [hb]; decide)) hsgen hpos hb st s q hwo hwr h1 h2 h3.1 h3.2 st' r hh
-    exact ⟨s', hs, g1, g2, by simp only [hb]; exact ⟨g3, g4⟩⟩
-
-/-- every request of the history carries URL-parser results with colon-free schemes -/
-def OpsWf (ops : List Op) : Prop := ∀ q, Op.req q ∈ ops → q.ourl.wf ∧ q.rurl.wf
+  cases hs : skipped cfg q
+  · rw [handle_of_not_skipped cfg gen sgen st q hs]
+    obtain ⟨s', hs', hinv'⟩ := handleCore_refines raw cfg hbuild gen sgen hgen hinj hsgen hpos st s q hinv
+    refine ⟨s', ?_, hinv'⟩
+    have hnow : (handleCore cfg gen sgen st q).1.now = s.now := by
+      rw [← hinv'.now, (specReqCore_issued _ s q _ s' hs').2]
+    have heh : ehClause (specConfig cfg.backend cfg.ext cfg.single cfg.idle raw cfg.next cfg.cookie cfg.eh)
+        (obsOf cfg (handleCore cfg gen sgen st q).1 (handleCore cfg gen sgen st q).2) = true := by
+      unfold ehClause
+      cases hp : (handleCore cfg gen sgen st q).2.pass
+      · obtain ⟨e, he⟩ := handleCore_reject_status cfg gen sgen st q hp
+        have hm : e ∈ allErrs := by cases e <;> simp [allErrs]
+        simp only [obsOf, hp, Bool.false_or, List.any_eq_true, beq_iff_eq]
+        exact ⟨e, hm, he.symm⟩
+      · simp [obsOf, hp]
+    unfold specReq
+    rw [skippedS_eq, hs, attrsClause_obsOf cfg raw _ _ s.now hnow hpos, heh]
+    simp only [Bool.false_eq_true, if_false, Bool.not_true]
+    exact hs'
+  · rw [handle_of_skipped cfg gen sgen st q hs]
+    obtain ⟨h1, h2⟩ := handleSkip_refines cfg gen sgen hsgen st s q hinv
+    refine ⟨s, ?_, h2⟩
+    unfold specReq
+    rw [skippedS_eq, hs]
+    simp only [if_true]
+    exact h1
 
 /-- **Whole histories**, from any related pair of states. -/
 theorem run_refines (raw : List Bytes) (cfg : Cfg)
@@ -75,21 +232,19 @@ theorem run_refines (raw : List Bytes) (cfg : Cfg)
     (gen sgen : Nat → Bytes) (hgen : ∀ n, gen n ≠ [])
     (hinj : cfg.backend ≠ .storage → Function.Injective gen)
     (hsgen : ∀ n, sgen n ≠ []) (hpos : 0 < cfg.idle)
-    (ops : List Op) (hwf : OpsWf ops) (st : St) (s : SpecSt) (hinv : Inv cfg gen st s) :
-    specRun (specConfig cfg.backend cfg.ext cfg.single cfg.idle raw) s ops (runObs cfg gen sgen st ops) = none := by
+    (ops : List Op) (st : St) (s : SpecSt) (hinv : Inv cfg gen st s) :
+    specRun (specConfig cfg.backend cfg.ext cfg.single cfg.idle raw cfg.next cfg.cookie cfg.eh) s ops (runObs cfg gen sgen st ops) = none := by
   induction ops generalizing st s with
   | nil => rfl
   | cons o os ih =>
-    have hwf' : OpsWf os := fun q hq => hwf q (List.mem_cons_of_mem _ hq)
     cases o with
     | adv d =>
       simp only [runObs, step, specRun]
-      exact ih hwf' _ _ (inv_adv cfg gen st s d hinv)
+      exact ih _ _ (inv_adv cfg gen st s d hinv)
     | req q =>
-      obtain ⟨hwo, hwr⟩ := hwf q (by simp)
-      obtain ⟨s', hs, hinv'⟩ := handle_refines raw cfg hbuild gen sgen hgen hinj hsgen hpos st s q hwo hwr hinv
+      obtain ⟨s', hs, hinv'⟩ := handle_refines raw cfg hbuild gen sgen hgen hinj hsgen hpos st s q hinv
       simp only [runObs, step, Option.map, specRun, hs]
-      exact ih hwf' _ _ hinv'
+      exact ih _ _ hinv'
 
 /-- `runObs` observes exactly the responses of `run` -/
 theorem runObs_resp (cfg : Cfg) (gen sgen : Nat → Bytes) (st : St) (ops : List Op) :
@@ -114,22 +269,20 @@ theorem run_refines_end (raw : List Bytes) (cfg : Cfg)
     (gen sgen : Nat → Bytes) (hgen : ∀ n, gen n ≠ [])
     (hinj : cfg.backend ≠ .storage → Function.Injective gen)
     (hsgen : ∀ n, sgen n ≠ []) (hpos : 0 < cfg.idle)
-    (ops : List Op) (hwf : OpsWf ops) (st : St) (s : SpecSt) (hinv : Inv cfg gen st s) (hli : LiveIssued s) :
-    ∃ s', specEnd (specConfig cfg.backend cfg.ext cfg.single cfg.idle raw) s ops (runObs cfg gen sgen st ops) = some s' ∧
+    (ops : List Op) (st : St) (s : SpecSt) (hinv : Inv cfg gen st s) (hli : LiveIssued s) :
+    ∃ s', specEnd (specConfig cfg.backend cfg.ext cfg.single cfg.idle raw cfg.next cfg.cookie cfg.eh) s ops (runObs cfg gen sgen st ops) = some s' ∧
       Inv cfg gen (run cfg gen sgen st ops).1 s' ∧ LiveIssued s' := by
   induction ops generalizing st s with
   | nil => exact ⟨s, rfl, hinv, hli⟩
   | cons o os ih =>
-    have hwf' : OpsWf os := fun q hq => hwf q (List.mem_cons_of_mem _ hq)
     rw [run_cons]
     cases o with
     | adv d =>
       simp only [runObs, step, specEnd]
-      exact ih hwf' _ _ (inv_adv cfg gen st s d hinv) hli
+      exact ih _ _ (inv_adv cfg gen st s d hinv) hli
     | req q =>
-      obtain ⟨hwo, hwr⟩ := hwf q (by simp)
-      obtain ⟨s', hs, hinv'⟩ := handle_refines raw cfg hbuild gen sgen hgen hinj hsgen hpos st s q hwo hwr hinv
+      obtain ⟨s', hs, hinv'⟩ := handle_refines raw cfg hbuild gen sgen hgen hinj hsgen hpos st s q hinv
       simp only [runObs, step, Option.map, specEnd, hs]
-      exact ih hwf' _ _ hinv' (specReq_liveIssued _ s q _ s' hs hli)
+      exact ih _ _ hinv' (specReq_liveIssued _ s q _ s' hs hli)
 
 end C16
